@@ -7,6 +7,8 @@ import (
 	"fmt"
 	"go/types"
 	"math/big"
+	"path"
+	"path/filepath"
 	"strings"
 
 	"golang.org/x/tools/go/ssa"
@@ -46,6 +48,9 @@ var fixedVals map[string]int64
 
 // lemmasOff disables zzLemma (second pass when a helper lemma was not proved).
 var lemmasOff bool
+
+// fixedNow (ns since 1970), when non-zero, is what time.Now returns.
+var fixedNow int64
 
 // invNoAssume: "Inv:" assertions are checked but not assumed afterwards.
 var invNoAssume bool
@@ -178,6 +183,44 @@ func (e *Engine) intrinsic(st *State, fn *ssa.Function, name string, args []Valu
 			}
 			e.store(st, fp, ft, nv, site)
 			return nil, true, st
+		case "zzFieldVal", "zzSetFieldStr":
+			iv := args[0].(*IfaceV)
+			if len(iv.alts) != 1 || iv.alts[0].typ == nil {
+				panic(unsupported("%s needs a definite pointer", short))
+			}
+			pt, ok := iv.alts[0].typ.Underlying().(*types.Pointer)
+			if !ok {
+				panic(unsupported("%s needs a pointer to struct", short))
+			}
+			stt, ok := pt.Elem().Underlying().(*types.Struct)
+			if !ok {
+				panic(unsupported("%s needs a pointer to struct", short))
+			}
+			fname := concStr(args[1])
+			fi := -1
+			for i := 0; i < stt.NumFields(); i++ {
+				if stt.Field(i).Name() == fname {
+					fi = i
+				}
+			}
+			if fi < 0 {
+				panic(unsupported("%s: no field %s in %v", short, fname, pt.Elem()))
+			}
+			ft := stt.Field(fi).Type()
+			p := iv.alts[0].v.(*PtrV)
+			fp := &PtrV{}
+			for _, a := range p.alts {
+				fp.alts = append(fp.alts, PtrAlt{a.g, a.obj, a.off + fieldOffset(stt, fi)})
+			}
+			if short == "zzSetFieldStr" {
+				e.store(st, fp, ft, args[2], site)
+				return nil, true, st
+			}
+			v := e.load(st, fp, ft, site)
+			if _, isIface := ft.Underlying().(*types.Interface); isIface {
+				return v, true, st
+			}
+			return &IfaceV{alts: []IfaceAlt{{g: TTrue, typ: ft, v: v}}}, true, st
 		case "zzSymbolic":
 			return TTrue, true, st
 		case "zzStrID":
@@ -227,6 +270,9 @@ func (e *Engine) intrinsic(st *State, fn *ssa.Function, name string, args []Valu
 		nst, r := e.callFunction(st, ef.Func("New"), []Value{ConcStr("<fmt.Errorf>")}, nil, caller, site)
 		return r, true, nst
 	case "time.Now":
+		if fixedNow != 0 {
+			return &TimeV{ns: Add(BVConst(fixedNow, 128), BVConstBig(unixEpochNs, 128))}, true, st
+		}
 		panic(unsupported("time.Now must be stubbed by the harness"))
 	case "(time.Time).Sub":
 		a, b := args[0].(*TimeV), args[1].(*TimeV)
@@ -248,6 +294,22 @@ func (e *Engine) intrinsic(st *State, fn *ssa.Function, name string, args []Valu
 		return Eq(args[0].(*TimeV).ns, BVConst(0, 128)), true, st
 	case "(time.Time).UnixNano":
 		return Extract(Sub(args[0].(*TimeV).ns, BVConstBig(unixEpochNs, 128)), 63, 0), true, st
+	case "path.Join", "path/filepath.Join":
+		// concrete call-through
+		sl := args[0].(*SliceV)
+		if !sl.len.IsConst() {
+			panic(unsupported("%s with symbolic argument count", name))
+		}
+		var parts []string
+		strT := types.Typ[types.String]
+		for i := 0; i < int(sl.len.Int64()); i++ {
+			p := e.elemPtr(sl.alts, Add(sl.off, BVConst(int64(i), 64)), 1)
+			parts = append(parts, concStr(e.load(st, p, strT, site)))
+		}
+		if name == "path.Join" {
+			return ConcStr(path.Join(parts...)), true, st
+		}
+		return ConcStr(filepath.Join(parts...)), true, st
 	case "math.Max":
 		return fBin(OFMax, args[0].(*Term), args[1].(*Term)), true, st
 	case "math.Min":
